@@ -310,8 +310,27 @@ func c18r2(c *an.Ctx) {
 	m := 0
 	for _, pkg := range []string{"drpcconn", "drpcstream"} {
 		for _, fn := range must(c.P.SourceFuncs(pkg)) {
-			calls := an.CallsTo(fn, false, rawWrite)
-			calls = append(calls, an.CallsTo(fn, false, a.obj("drpcstream", "(*Stream).rawWriteLocked"))...)
+			// every call of a drpcstream function that takes a packet kind as its first argument (RawWrite and the
+			// helpers behind it, whatever they are called)
+			_ = rawWrite
+			var calls []an.CallSite
+			an.Instrs(fn, func(in ssa.Instruction) {
+				ci, ok := in.(ssa.CallInstruction)
+				if !ok {
+					return
+				}
+				callee := ci.Common().StaticCallee()
+				if callee == nil || callee.Pkg == nil || callee.Pkg.Pkg.Path() != c.P.ModPath+"/drpcstream" || callee.Signature.Params().Len() == 0 {
+					return
+				}
+				if nt, isN := callee.Signature.Params().At(0).Type().(*types.Named); !isN || nt.Obj().Name() != "Kind" {
+					return
+				}
+				if nameOf(callee) == "newFrameLocked" || nameOf(callee) == "sendPacketLocked" {
+					return // terminal/control emissions are checked above
+				}
+				calls = append(calls, an.CallSite{Instr: ci})
+			})
 			for _, cs := range calls {
 				k, isC := an.ConstInt(an.Arg(cs.Common(), 0))
 				if !isC {
